@@ -37,6 +37,8 @@ type Arg struct {
 	Name string
 	Use  ArgUse
 	Type *xtype.Type
+	// Variadic is set for the last parameter of a variadic signature: Type is the slice type.
+	Variadic bool
 }
 
 type ArgUse string
